@@ -127,7 +127,7 @@ class Simulation_Investigation():
         if possible_statuses is None:
             ps = set()
             for node in node_history:
-                ps = ps.union(set(node_history[node]))
+                ps = ps.union(set(node_history[node][1]))
             possible_statuses = list(ps)
             
         if color_dict is None:
